@@ -609,12 +609,31 @@ where
     }
 
     // Given we are at the start of a line, count the number of spaces and/or tabs until the first character.
-    fn eat_indentation(&mut self) -> Result<IndentationLevel, LexicalError> {
+    fn eat_indentation(&mut self) -> Result<(IndentationLevel, u32), LexicalError> {
         // Determine indentation:
         let mut spaces: u32 = 0;
         let mut tabs: u32 = 0;
+        // The whitespace in front of the first line-continuation backslash met in the leading whitespace:
+        // indentation cannot be split over physical lines, so that is the indentation of whatever follows.
+        let mut continued: Option<(u32, u32)> = None;
         loop {
             match self.window[0] {
+                Some('\\') if matches!(self.window[1], Some('\n' | '\r')) => {
+                    // A line of nothing but whitespace and a backslash joins the next physical line.
+                    if continued.is_none() && (spaces != 0 || tabs != 0) {
+                        continued = Some((spaces, tabs));
+                    }
+                    spaces = 0;
+                    tabs = 0;
+                    self.next_char();
+                    self.next_char();
+                    if self.window[0].is_none() {
+                        return Err(LexicalError {
+                            error: LexicalErrorType::Eof,
+                            location: self.get_pos(),
+                        });
+                    }
+                }
                 Some(' ') => {
                     /*
                     if tabs != 0 {
@@ -647,6 +666,7 @@ where
                     self.lex_and_emit_comment()?;
                     spaces = 0;
                     tabs = 0;
+                    continued = None;
                 }
                 Some('\x0C') => {
                     // Form feed character!
@@ -666,10 +686,12 @@ where
                     self.emit((Tok::NonLogicalNewline, TextRange::new(tok_start, tok_end)));
                     spaces = 0;
                     tabs = 0;
+                    continued = None;
                 }
                 None => {
                     spaces = 0;
                     tabs = 0;
+                    continued = None;
                     break;
                 }
                 _ => {
@@ -679,12 +701,15 @@ where
             }
         }
 
-        Ok(IndentationLevel { tabs, spaces })
+        // The indentation level, and the width of the whitespace right in front of the first token.
+        let width = spaces + tabs;
+        let (spaces, tabs) = continued.unwrap_or((spaces, tabs));
+        Ok((IndentationLevel { tabs, spaces }, width))
     }
 
     // Push/pop indents/dedents based on the current indentation level.
     fn handle_indentations(&mut self) -> Result<(), LexicalError> {
-        let indentation_level = self.eat_indentation()?;
+        let (indentation_level, width) = self.eat_indentation()?;
 
         if self.nesting != 0 {
             return Ok(());
@@ -703,12 +728,7 @@ where
                 let tok_pos = self.get_pos();
                 self.emit((
                     Tok::Indent,
-                    TextRange::new(
-                        tok_pos
-                            - TextSize::new(indentation_level.spaces)
-                            - TextSize::new(indentation_level.tabs),
-                        tok_pos,
-                    ),
+                    TextRange::new(tok_pos - TextSize::new(width), tok_pos),
                 ));
             }
             Ordering::Less => {
